@@ -262,7 +262,7 @@ bool WebSocket::closed()
 WebSocketMsg WebSocket::receive()
 {
 	WebSocketMsg msg;
-	bool haveMsg = false;
+	bool haveMsg = false, fragmented = false;
 	while (!haveMsg)
 	{
 		ByteArray buffer;
@@ -346,7 +346,9 @@ WebSocketMsg WebSocket::receive()
 			break;
 		}
 
-		if (fin)
+		if (opcode < 8)
+			fragmented = !fin;
+		if (fin && !fragmented) // a control frame does not end a fragmented message
 			haveMsg = true;
 	}
 
